@@ -521,20 +521,35 @@ Fixpoint lookup (fuel : nat) (st : state) (an : ptr) (k : Z) : res ptr :=
       end
   end.
 
-Inductive pop : Type := PIns (k : Z) | PDel (k : Z).
+(* PReins k: the caller hands iv_avl_tree_insert the node object that is
+   ALREADY linked in the tree and carries key k (double registration); when no
+   node carries k it behaves like PIns k. *)
+Inductive pop : Type := PIns (k : Z) | PDel (k : Z) | PReins (k : Z).
 
 Definition free_node (st : state) (i : positive) : state :=
   mkState (PositiveMap.remove i (st_store st)) (st_root st).
 
+(* malloc a node (garbage fields, key k), insert it, free it when rejected *)
+Definition pstep_ins (fuel : nat) (g : ptr) (gh : Z) (m : machine) (k : Z) : res (machine * Z) :=
+  let i := m_next m in
+  let st0 := mkState (PositiveMap.add i (garbage g gh k) (st_store (m_state m))) (st_root (m_state m)) in
+  r <- iv_avl_tree_insert fuel st0 (Some i) ;;
+  let '(st1, rc) := r in
+  if rc =? 0 then Ok (mkMachine st1 (Pos.succ i), rc)
+  else Ok (mkMachine (free_node st1 i) (Pos.succ i), rc).
+
 Definition pstep (fuel : nat) (g : ptr) (gh : Z) (m : machine) (o : pop) : res (machine * Z) :=
   match o with
-  | PIns k =>
-      let i := m_next m in
-      let st0 := mkState (PositiveMap.add i (garbage g gh k) (st_store (m_state m))) (st_root (m_state m)) in
-      r <- iv_avl_tree_insert fuel st0 (Some i) ;;
-      let '(st1, rc) := r in
-      if rc =? 0 then Ok (mkMachine st1 (Pos.succ i), rc)
-      else Ok (mkMachine (free_node st1 i) (Pos.succ i), rc)
+  | PIns k => pstep_ins fuel g gh m k
+  | PReins k =>
+      n <- lookup fuel (m_state m) (st_root (m_state m)) k ;;
+      match n with
+      | None => pstep_ins fuel g gh m k
+      | Some _ =>
+          (* the linked object itself is handed to insert: nothing allocated, nothing freed *)
+          r <- iv_avl_tree_insert fuel (m_state m) n ;;
+          Ok (mkMachine (fst r) (m_next m), snd r)
+      end
   | PDel k =>
       n <- lookup fuel (m_state m) (st_root (m_state m)) k ;;
       match n with
